@@ -66,6 +66,11 @@ LAYERS = [
 
 
 def run(prog, res):
+  from ..rules import seqkind
+  seqkind.selfcheck()
+  for q in ('lattice_lib.assert_constraints',):
+    seqkind.check_function(prog, res, prog.function(q))
+  res.floor('T3', 1)
   total = 0
   for qual, kinds, exc in LIBS:
     fn = prog.function(qual)
